@@ -219,7 +219,19 @@ def showMode (m : Mode) : String :=
   let s := String.ofList (toStr m)
   if s.isEmpty then "_" else s
 
-def showTok (t : Tok) : String := match t with | none => "-" | some s => if s.isEmpty then "''" else s
+/-- a map value (`public`, `private` are often objects): `m:k=v;k2=v2` in the line protocol and in the model, keys sorted; the
+digests show the JSON object -/
+def mapPairs (s : String) : List (String × String) :=
+  ((s.drop 2).toString.splitOn ";").filterMap (fun p => match p.splitOn "=" with
+    | k :: v :: rest => if k = "" then none else some (k, "=".intercalate (v :: rest))
+    | _ => none)
+def mapCanon (l : List (String × String)) : String :=
+  "m:" ++ ";".intercalate ((l.mergeSort (fun a b => a.1 ≤ b.1)).map (fun (k, v) => k ++ "=" ++ v))
+def isMapTok (s : String) : Bool := s.startsWith "m:"
+def showTok (t : Tok) : String := match t with
+  | none => "-"
+  | some s => if s.isEmpty then "''" else
+    if isMapTok s then "{" ++ ",".intercalate ((mapPairs s).map (fun (k, v) => "\"" ++ k ++ "\":\"" ++ v ++ "\"")) ++ "}" else s
 
 def eff (p : PUD) : Mode := p.want &&& p.given
 
